@@ -252,7 +252,8 @@ pub fn concrete_of_value(v: &Value, heap: &Heap) -> J {
         Value::Record(p) => {
             json!({"r": p.reify(heap).as_record().unwrap().iter().map(|(k, v)| json!([k, concrete_of_value(v, heap)])).collect::<Vec<_>>()})
         }
-        Value::Lambda(p) => json!({"f": p.index()}),
+        // functions by their source text (heap positions differ between runs)
+        Value::Lambda(_) => json!({"f": v.stringify_internal(heap)}),
         Value::BuiltIn(b) => json!({"bi": b.name()}),
         Value::Spread(_) => json!({"spread": true}),
     }
